@@ -1,9 +1,8 @@
 /-
   C13 — no EEPROM content can hang or crash the MainDevice.
-  Property theorems only; the calculus and the per-function lemmas live in EcModel/Lemmas/EepromSafe.lean,
-  the build-mode agreement of the category walk in EcModel/Lemmas/EepromAgree.lean.
+  Property theorems only; the calculus and the per-function lemmas live in EcModel/Lemmas/EepromSafe.lean.
 -/
-import EcModel.Lemmas.EepromAgree
+import EcModel.Lemmas.EepromSafe
 
 namespace Ec.C13
 open Ec Ec.Eeprom
@@ -88,52 +87,34 @@ theorem query_tri (m : Mode) (p : Prov) (hcs : 4 ≤ p.cs) (hb : ∀ a, p.rd a <
   | deviceName N => exact forget_tri (deviceName_tri m p hcs hc hb N)
   | deviceDescription N => exact forget_tri (deviceDescription_tri m p hcs hc hb N)
 
-/-- **Overflow-checked builds, every image.** For every memory content (any bytes), chunk size ≥ 4 and every
-    query: the query terminates (never runs out of fuel), makes at most `bound` provider calls, and returns a
-    value, "absent" or an error — or panics at one of the eight `u16` overflow sites listed in `knownSites`,
-    and nowhere else (no index, slice, unwrap or capacity panic exists). -/
-theorem eeprom_queries_total_checked (p : Prov) (hcs : 4 ≤ p.cs) (hb : ∀ a, p.rd a < 256) (q : Query) :
-    (q.run .checked p).1 ≠ .err .fuel ∧
-    (q.run .checked p).2 ≤ q.bound (catBound .checked) ∧
-    (∀ w, (q.run .checked p).1 = .panic w → w ∈ knownSites) :=
-  have h := query_tri .checked p hcs hb (catOK_all .checked p hcs) q
+/-- **`eeprom_queries_total`: every image, both build modes.** For every memory content (any bytes), chunk
+    size ≥ 4, build mode and query: the query terminates (never runs out of fuel — the category walk's word
+    address grows by at least 2 per step through a checked addition), makes at most `bound` provider calls, and
+    returns a value, "absent" or an error; the only panics left are the `u16` overflow sites listed in
+    `sites m` (none in wrapping builds) — no index, slice, unwrap or capacity panic exists. -/
+theorem eeprom_queries_total (m : Mode) (p : Prov) (hcs : 4 ≤ p.cs) (hb : ∀ a, p.rd a < 256) (q : Query) :
+    (q.run m p).1 ≠ .err .fuel ∧
+    (q.run m p).2 ≤ q.bound catBound ∧
+    (∀ w, (q.run m p).1 = .panic w → w ∈ sites m) :=
+  have h := query_tri m p hcs hb (catOK_all m p hcs) q
   ⟨h.nofuel rfl, h.cost, h.panics⟩
 
-/-- **Wrapping builds, every image.** No query can panic, whatever the memory holds; every loop other than the
-    category walk is bounded. (The category walk itself may fail to terminate: see
-    `category_wrap_hang_counterexample`.) -/
+/-- Wrapping builds never panic. -/
 theorem eeprom_queries_never_panic_wrapping (p : Prov) (hcs : 4 ≤ p.cs) (hb : ∀ a, p.rd a < 256) (q : Query) :
-    (∀ w, (q.run .wrapping p).1 ≠ .panic w) ∧ (q.run .wrapping p).2 ≤ q.bound catFuel := by
-  have h := query_tri .wrapping p hcs hb (catOK_all .wrapping p hcs) q
-  refine ⟨fun w hw => ?_, h.cost⟩
-  have := h.panics w hw
+    ∀ w, (q.run .wrapping p).1 ≠ .panic w := by
+  intro w hw
+  have := (eeprom_queries_total .wrapping p hcs hb q).2.2 w hw
   simp [sites] at this
 
-/-- **`eeprom_queries_total`, PARTIAL.** Hypothesis: no category search overflows `u16` on this image (the
-    checked search for every category type ends without a panic: the chain of category headers stays below
-    word 0x8000 and a found category fits the 16-bit byte cursor). Then in wrapping builds every query
-    terminates, never panics, and makes at most the tight (checked) number of provider calls; in checked
-    builds the only remaining panics are the `size`, `skip_ahead_bytes` and `read_byte` sites. The full
-    statement without the hypothesis is false: see the counterexamples below. -/
-theorem eeprom_queries_total_partial (p : Prov) (hcs : 4 ≤ p.cs) (hb : ∀ a, p.rd a < 256)
-    (hnw : ∀ cat, NoPanic (Eeprom.category .checked p cat)) (q : Query) :
-    (q.run .wrapping p).1 ≠ .err .fuel ∧
-    (∀ w, (q.run .wrapping p).1 ≠ .panic w) ∧
-    (q.run .wrapping p).2 ≤ q.bound (catBound .checked) := by
-  have h := query_tri .wrapping p hcs hb (catOK_noWrap p hcs hnw) q
-  refine ⟨h.nofuel rfl, fun w hw => ?_, h.cost⟩
-  have := h.panics w hw
-  simp [sites] at this
-
-/-- **Access bound**, explicit: a category search makes at most 32 737 provider calls in a checked build (the
+/-- **Access bound**, explicit: a category search makes at most 32 737 provider calls in every build (the
     word address grows by at least 2 per call from 0x40), hence every query with string capacity and index up
     to 255 stays below 185 000 calls. -/
 theorem access_bound (q : Query)
     (hq : ∀ N idx, (q = .findString N idx → N ≤ 255 ∧ idx ≤ 255) ∧ (q = .deviceName N → N ≤ 255) ∧
       (q = .deviceDescription N → N ≤ 255)) :
-    catBound .checked = 32737 ∧ q.bound (catBound .checked) ≤ 184801 := by
+    catBound = 32737 ∧ q.bound catBound ≤ 184801 := by
   refine ⟨by decide, ?_⟩
-  have hcb : catBound .checked = 32737 := by decide
+  have hcb : catBound = 32737 := by decide
   rw [hcb]
   cases q with
   | findString N idx => have := (hq N idx).1 rfl; simp only [Query.bound]; omega
@@ -164,41 +145,43 @@ theorem t1_capacities :
     Gen.Eeprom.CAP_PDOS = 64 ∧ Gen.Eeprom.FMMU_READ_BUF = 16 ∧ Gen.Eeprom.EMPTY_CATEGORY_LIMIT = 32 := by
   decide
 
-/-! ## The full statement is false of the code as it is: one concrete image per defect class
+/-! ## Concrete images, one per defect class found in the original code
 
-  Memories are given as functions; every byte not mentioned is 0. All witnesses are replayed on the real code by
-  `harness/src/bin/c13.rs` (adversarial corpus). -/
+  `…_fixed`: the class is repaired in /repo (the former witness now yields a value or an error);
+  `…_counterexample`: still false of the code. Memories are given as functions; every byte not mentioned is 0.
+  All witnesses are replayed on the real code by `harness/src/bin/c13.rs` (adversarial corpus). -/
 
 /-- 128 header bytes, then a first category of type 1 with length word 0xFFFF. -/
 def imgLenFFFF (a : Nat) : Nat := if a = 128 then 1 else if a = 130 then 255 else if a = 131 then 255 else 0
 
 set_option maxRecDepth 100000 in
-/-- Checked builds: `word_addr += len_words` overflows (`subdevice/eeprom.rs`, end of the `category` loop):
-    every category-based query panics on this image. -/
-theorem category_len_overflow_counterexample :
-    (general .checked ⟨imgLenFFFF, 4⟩).1 = .panic "category:add" ∧
-    (syncManagers .checked ⟨imgLenFFFF, 8⟩).1 = .panic "category:add" ∧
-    (deviceName .checked ⟨imgLenFFFF, 4⟩ 64).1 = .panic "category:add" := by decide
+/-- FIXED (was `category_len_overflow_counterexample`: panic `category:add` in checked builds): a length word
+    that points past the word address space is now `Err(SectionOverrun)` in both build modes. -/
+theorem category_len_overflow_fixed :
+    (general .checked ⟨imgLenFFFF, 4⟩).1 = .err .overrun ∧
+    (syncManagers .wrapping ⟨imgLenFFFF, 8⟩).1 = .err .overrun ∧
+    (deviceName .checked ⟨imgLenFFFF, 4⟩ 64).1 = .err .overrun := by decide
 
 /-- EEPROM size word (word 0x3E) = `lo + 256 * hi`, everything else 0. -/
 def imgSize (lo hi : Nat) (a : Nat) : Nat := if a = 124 then lo else if a = 125 then hi else 0
 
-/-- `(word + 1) * 128` in `u16`: size word 511 (a 512 Kbit EEPROM) overflows the multiplication, size word
-    0xFFFF (a blank, all-ones EEPROM) the addition. Checked builds panic; wrapping builds report 0 bytes. -/
-theorem size_overflow_counterexample :
-    (size .checked ⟨imgSize 255 1, 4⟩).1 = .panic "size:mul" ∧
-    (size .wrapping ⟨imgSize 255 1, 4⟩).1 = .ok 0 ∧
-    (size .checked ⟨fun _ => 255, 4⟩).1 = .panic "size:add" ∧
-    (size .wrapping ⟨fun _ => 255, 4⟩).1 = .ok 0 := by decide
+/-- FIXED (was `size_overflow_counterexample`: `(word + 1) * 128` computed in `u16` panicked in checked builds and
+    gave 0 in wrapping builds for size word 511 and for a blank, all-ones EEPROM): the size is computed in
+    `usize`; 512 Kbit is 65536 bytes, the blank image reports the register maximum. -/
+theorem size_overflow_fixed :
+    (size .checked ⟨imgSize 255 1, 4⟩).1 = .ok 65536 ∧
+    (size .wrapping ⟨imgSize 255 1, 4⟩).1 = .ok 65536 ∧
+    (size .checked ⟨fun _ => 255, 4⟩).1 = .ok 8388608 ∧
+    (size .wrapping ⟨fun _ => 255, 4⟩).1 = .ok 8388608 := by decide
 
 /-- First category (type 1) with length 0x7FBC: the next header sits at word 0x7FFE. -/
 def imgFar (a : Nat) : Nat := if a = 128 then 1 else if a = 130 then 0xbc else if a = 131 then 0x7f else 0
 
 set_option maxRecDepth 100000 in
-/-- A category header at word 0x7FFE or beyond (a well-formed EEPROM larger than 64 KiB has them) cannot be
-    passed: in this build configuration the evaluated trace argument `word_addr * 2` overflows. -/
-theorem category_beyond_32k_counterexample :
-    (fmmus .checked ⟨imgFar, 4⟩).1 = .panic "category:mul" := by decide
+/-- FIXED (was `category_beyond_32k_counterexample`: panic `category:mul`): headers at word 0x7FFE and beyond
+    are walked like any other (here 32 empty categories follow, so the search ends "absent"). -/
+theorem category_beyond_32k_fixed :
+    (fmmus .checked ⟨imgFar, 4⟩).1 = .ok [] ∧ (general .wrapping ⟨imgFar, 4⟩).1 = .err .noCategory := by decide
 
 /-- A `General` category (type 30) found at word 0x40 with a length word of 0x8000 / 0x7FC0. -/
 def imgBigCat (lo hi : Nat) (a : Nat) : Nat :=
@@ -234,38 +217,15 @@ theorem read_byte_overflow_counterexample :
 /-- 128 header bytes, then a first category of type 2 (not searched for) with length word 0xFFFE. -/
 def imgWrapToSelf (a : Nat) : Nat := if a = 128 then 2 else if a = 130 then 254 else if a = 131 then 255 else 0
 
-/-- **Wrapping builds loop forever**: the next header address is `0x42 + 0xFFFE = 0x40 (mod 2^16)`, the header
-    just read. For EVERY amount of fuel the walk is still running; it has made `fuel` provider calls. (Every
-    category-based query, hence `SubDevice` initialisation, never returns for this device.) -/
-theorem category_wrap_hang_counterexample (cat : Nat) (hcat : cat ≠ 1) (fuel : Nat) :
-    ∀ calls, catLoop .wrapping ⟨imgWrapToSelf, 4⟩ cat fuel 64 0 calls = (.err .fuel, calls + fuel) := by
-  induction fuel with
-  | zero => intro calls; rfl
-  | succ fuel ih =>
-    intro calls
-    have hstep : catStep .wrapping cat (chunkAt ⟨imgWrapToSelf, 4⟩ 64) 64 0 = (.ok (.next 64 0), 0) := by
-      have hchunk : chunkAt ⟨imgWrapToSelf, 4⟩ 64 = [2, 0, 254, 255] := by decide
-      rw [hchunk]
-      unfold catStep
-      have hc : catOf (rd16 [2, 0, 254, 255]) = 1 := by decide
-      have hl : rd16 (List.drop 2 [2, 0, 254, 255]) = 65534 := by decide
-      simp only [hc, hl]
-      have hne : ¬ (1 = cat) := fun h => hcat h.symm
-      simp [hne, mul16, add16, Gen.Eeprom.EMPTY_CATEGORY_LIMIT, Gen.Eeprom.CAT_END, ret, Eeprom.bind]
-    unfold catLoop
-    rw [hstep]
-    simp only
-    rw [ih (calls + 1)]
-    congr 1; omega
+set_option maxRecDepth 100000 in
+/-- FIXED (was `category_wrap_hang_counterexample`: the wrapping walk returned to the header it had just read,
+    for ever): `0x42 + 0xFFFE` no longer wraps, the search ends with `Err(SectionOverrun)` after one provider
+    call in both build modes. -/
+theorem category_wrap_hang_fixed :
+    Eeprom.category .wrapping ⟨imgWrapToSelf, 4⟩ 30 = (.err .overrun, 1) ∧
+    Eeprom.category .checked ⟨imgWrapToSelf, 4⟩ 30 = (.err .overrun, 1) := by decide
 
-/-- In particular the search for the General category (30) with the fuel the model's `category` uses. -/
-theorem general_hangs_counterexample :
-    (Eeprom.category .wrapping ⟨imgWrapToSelf, 4⟩ 30).1 = .err .fuel := by
-  unfold Eeprom.category
-  show (catLoop .wrapping ⟨imgWrapToSelf, 4⟩ 30 catFuel 64 0 0).1 = .err .fuel
-  rw [category_wrap_hang_counterexample 30 (by decide) catFuel 0]
-
-/-! ## non-vacuity: the hypotheses of the partial theorem are satisfiable, and queries do return values -/
+/-! ## non-vacuity: queries do return values -/
 
 /-- A small well-formed image: General category (18 bytes, order string 1) and an End marker. -/
 def imgOk (a : Nat) : Nat :=
